@@ -505,3 +505,117 @@ Example C16_model_doc_names_is_source_from_env_nonvacuous :
   exists names, doc_names X.Bridge.BrTables.TWit.te perm_rev X.Bridge.BrTables.TWit.outer_ptr = Some names /\
                 List.length names = 20.
 Proof. exact X.Bridge.BrDocgenEnv.doc_names_bridge_from_env_inhabited. Qed.
+(* ------------------------------------------------------------------------------------------
+   The member lookups ARE the source (GenMembers): checker/types.go's fieldType, methodType and
+   dereference are read statement by statement by /verif/translator/gen_members.go on every run into
+   gen/GenMembers.v (terms of the DSL of Ty/TableRules.v: the switch on Kind, the two loops over
+   NumField with their early returns, the recursion through embedded fields, the pointer dereference,
+   the map element, the interface case); run by Ty/MemberRules.v they give the hand models
+   field_type / method_type - the functions C16_accepted_resolves_* are ABOUT - for every declaration
+   set, every type description of the fragment and every name (induction on the embedding depth).
+   Oracle: `t.MethodByName(name)` is the method table of the declarations (method_by_name; promotion
+   is reflect's, not recomputed); C16_model_method_type_is_source_any_oracle holds for ANY oracle, so
+   that the interface-receiver statement of methodType is covered too.
+   Side conditions (decidable): `plain` / `te_plain` / `member_ty_ok` / `member_te_ok` - no declared type
+   over a pointer or struct along a pointer chain, no pointer to nothing; `lk_fuel .. = false` - the
+   model's search ends within its fuel (implied by the acyclicity test fuel_ok: C16_member_lookups_in_fuel);
+   enough fuel for the nested calls of the regenerated functions.  Outside the fragment the statements
+   are false: the hand model is narrower than reflect (`type P *Inner`: C16_model_field_type_is_source_refuted,
+   C16_model_method_type_is_source_refuted). *)
+Require X.Ty.MemberRules X.gen.GenMembers X.Bridge.BrMembersBase X.Bridge.BrMembers.
+
+Theorem C16_genmembers_recognised :
+  forallb X.Ty.TableRules.fdef_ok X.gen.GenMembers.member_funcs = true /\ X.gen.GenMembers.genmembers_problems = [].
+Proof. exact X.Bridge.BrMembersBase.genmembers_recognised. Qed.
+Print Assumptions C16_genmembers_recognised.
+
+Theorem C16_model_field_type_is_source : forall te n t name fuel,
+  X.Ty.TableRules.plain t = true -> X.Ty.TableRules.te_plain te = true ->
+  X.Ty.MemberRules.lk_fuel (field_type te n t name) = false ->
+  X.Ty.MemberRules.field_fuel te n t <= fuel ->
+  X.Ty.MemberRules.gen_field_type X.gen.GenMembers.member_funcs X.gen.GenMembers.member_consts te fuel t name
+  = X.Ty.MemberRules.lk_res (field_type te n t name).
+Proof. exact X.Bridge.BrMembers.field_type_bridge. Qed.
+Print Assumptions C16_model_field_type_is_source.
+
+Theorem C16_model_method_type_is_source : forall te n t name fuel,
+  X.Ty.MemberRules.member_ty_ok t = true -> X.Ty.MemberRules.member_te_ok te = true ->
+  X.Ty.MemberRules.lk_fuel (method_type te n t name) = false ->
+  X.Ty.MemberRules.method_fuel n <= fuel ->
+  X.Ty.MemberRules.gen_method_type X.gen.GenMembers.member_funcs X.gen.GenMembers.member_consts te fuel t name
+  = X.Ty.MemberRules.lk_res (method_type te n t name).
+Proof. exact X.Bridge.BrMembers.method_type_bridge. Qed.
+Print Assumptions C16_model_method_type_is_source.
+
+Theorem C16_model_method_type_is_source_any_oracle : forall te mb n t name fuel,
+  X.Ty.MemberRules.member_ty_ok t = true -> X.Ty.MemberRules.member_te_ok te = true ->
+  X.Ty.MemberRules.lk_fuel (X.Ty.MemberRules.method_type_of te mb n t name) = false ->
+  X.Ty.MemberRules.method_fuel n <= fuel ->
+  X.Ty.MemberRules.gen_method_type_of mb X.gen.GenMembers.member_funcs X.gen.GenMembers.member_consts te fuel t name
+  = X.Ty.MemberRules.lk_res (X.Ty.MemberRules.method_type_of te mb n t name).
+Proof. exact X.Bridge.BrMembers.method_type_of_bridge. Qed.
+Print Assumptions C16_model_method_type_is_source_any_oracle.
+
+Theorem C16_method_type_of_is_model : forall te n t name,
+  X.Ty.MemberRules.method_type_of te (method_by_name te) n t name = method_type te n t name.
+Proof. exact X.Bridge.BrMembers.method_type_of_model. Qed.
+Print Assumptions C16_method_type_of_is_model.
+
+Theorem C16_checker_dereference_is_source : forall t fuel,
+  X.Ty.TableRules.plain t = true -> X.Ty.TableRules.ptr_depth t < fuel ->
+  X.Ty.MemberRules.gen_checker_dereference X.gen.GenMembers.member_funcs X.gen.GenMembers.member_consts fuel t
+  = X.Ty.TableRules.Got (dereference t).
+Proof. exact X.Bridge.BrMembersBase.checker_dereference_bridge. Qed.
+Print Assumptions C16_checker_dereference_is_source.
+
+(* the fuel hypothesis follows from the acyclicity test the other theorems of this file use *)
+Theorem C16_member_lookups_in_fuel :
+  (forall te n t name, X.Ty.TableRules.te_plain te = true -> X.Ty.TableRules.plain t = true ->
+     fuel_ok te n t = true -> X.Ty.MemberRules.lk_fuel (field_type te n t name) = false) /\
+  (forall te n t name, X.Ty.MemberRules.member_te_ok te = true -> X.Ty.MemberRules.member_ty_ok t = true ->
+     fuel_ok te n t = true -> X.Ty.MemberRules.lk_fuel (method_type te n t name) = false).
+Proof. exact (conj X.Bridge.BrMembers.field_type_in_fuel X.Bridge.BrMembers.method_type_in_fuel). Qed.
+Print Assumptions C16_member_lookups_in_fuel.
+
+Definition C16_model_field_type_is_source_full_statement : Prop := X.Bridge.BrMembers.field_type_bridge_full_statement.
+Definition C16_model_method_type_is_source_full_statement : Prop := X.Bridge.BrMembers.method_type_bridge_full_statement.
+
+Theorem C16_model_field_type_is_source_refuted :
+  field_type X.Bridge.BrMembers.MWit.te (fuel0 X.Bridge.BrMembers.MWit.te) X.Bridge.BrMembers.MWit.named_ptr "X" = LMissing /\
+  X.Ty.MemberRules.gen_field_type X.gen.GenMembers.member_funcs X.gen.GenMembers.member_consts X.Bridge.BrMembers.MWit.te
+      (X.Ty.MemberRules.field_fuel X.Bridge.BrMembers.MWit.te (fuel0 X.Bridge.BrMembers.MWit.te) X.Bridge.BrMembers.MWit.named_ptr)
+      X.Bridge.BrMembers.MWit.named_ptr "X"
+    = X.Ty.TableRules.Got (Some X.Bridge.BrMembers.MWit.tint) /\
+  ~ C16_model_field_type_is_source_full_statement.
+Proof. exact X.Bridge.BrMembers.field_type_bridge_refuted. Qed.
+Print Assumptions C16_model_field_type_is_source_refuted.
+
+Theorem C16_model_method_type_is_source_refuted :
+  method_type X.Bridge.BrMembers.MWit.te (fuel0 X.Bridge.BrMembers.MWit.te) X.Bridge.BrMembers.MWit.named_ptr "X" = LMissing /\
+  X.Ty.MemberRules.gen_method_type X.gen.GenMembers.member_funcs X.gen.GenMembers.member_consts X.Bridge.BrMembers.MWit.te
+      (X.Ty.MemberRules.method_fuel (fuel0 X.Bridge.BrMembers.MWit.te)) X.Bridge.BrMembers.MWit.named_ptr "X"
+    = X.Ty.TableRules.Got (Some (X.Bridge.BrMembers.MWit.tint, false)) /\
+  method_type X.Bridge.BrMembers.MWit.te (fuel0 X.Bridge.BrMembers.MWit.te) X.Bridge.BrMembers.MWit.ptr_nil "X" = LMissing /\
+  X.Ty.MemberRules.gen_method_type X.gen.GenMembers.member_funcs X.gen.GenMembers.member_consts X.Bridge.BrMembers.MWit.te
+      (X.Ty.MemberRules.method_fuel (fuel0 X.Bridge.BrMembers.MWit.te)) X.Bridge.BrMembers.MWit.ptr_nil "X"
+    = X.Ty.TableRules.Panics /\
+  ~ C16_model_method_type_is_source_full_statement.
+Proof. exact X.Bridge.BrMembers.method_type_bridge_refuted. Qed.
+Print Assumptions C16_model_method_type_is_source_refuted.
+
+(* non-vacuity: a declaration set inside the fragment (struct embedded by value that embeds a pointer,
+   unexported / interface / map fields, methods on both receivers), acyclic; X found two embedding
+   levels down through a pointer by the model AND by the interpreted source; a pointer-receiver method *)
+Example C16_model_member_lookups_nonvacuous :
+  X.Ty.MemberRules.member_te_ok X.Bridge.BrMembers.MWit.te = true /\
+  X.Ty.TableRules.te_plain X.Bridge.BrMembers.MWit.te = true /\
+  X.Ty.MemberRules.member_ty_ok (TPtr X.Bridge.BrMembers.MWit.outer) = true /\
+  X.Ty.TableRules.plain (TPtr (TPtr X.Bridge.BrMembers.MWit.outer)) = true /\
+  fuel_ok X.Bridge.BrMembers.MWit.te (fuel0 X.Bridge.BrMembers.MWit.te) X.Bridge.BrMembers.MWit.outer = true /\
+  field_type X.Bridge.BrMembers.MWit.te (fuel0 X.Bridge.BrMembers.MWit.te) (TPtr (TPtr X.Bridge.BrMembers.MWit.outer)) "X"
+    = LFound X.Bridge.BrMembers.MWit.tint /\
+  X.Ty.MemberRules.gen_field_type X.gen.GenMembers.member_funcs X.gen.GenMembers.member_consts X.Bridge.BrMembers.MWit.te
+      (X.Ty.MemberRules.field_fuel X.Bridge.BrMembers.MWit.te (fuel0 X.Bridge.BrMembers.MWit.te) (TPtr (TPtr X.Bridge.BrMembers.MWit.outer)))
+      (TPtr (TPtr X.Bridge.BrMembers.MWit.outer)) "X"
+    = X.Ty.TableRules.Got (Some X.Bridge.BrMembers.MWit.tint).
+Proof. repeat split; vm_compute; reflexivity. Qed.
